@@ -38,6 +38,41 @@ fn gen_input(seed: u64, case: u64, slow: bool) -> (String, Vec<u8>) {
         }
         return ("many-classes".into(), t.into_bytes());
     }
+    if case % 8 == 2 {
+        // what hash containers keyed by ORIGINAL names see: several class records that share
+        // an original name (concatenated per-module mappings) with different source files,
+        // classes nested in them with and without a header of their own, kept classes
+        let mut t = String::new();
+        let outers = ["com.example.Main", "com.example.util.Helper", "Dotless", "org.x.Worker"];
+        let k = 2 + rng.below(3);
+        let mut n = 0;
+        for r in 0..k {
+            for (oi, o) in outers.iter().enumerate() {
+                if rng.chance(1, 4) {
+                    continue;
+                }
+                n += 1;
+                t.push_str(&format!("{o} -> m{r}.c{oi}:\n"));
+                if rng.chance(3, 4) {
+                    t.push_str(&format!("# {{\"id\":\"sourceFile\",\"fileName\":\"{}{}.{}\"}}\n", o.rsplit('.').next().unwrap(), r, ["kt", "java"][r % 2]));
+                }
+                t.push_str(&format!("    1:3:void run{r}(int):1{r}:1{r} -> a\n"));
+                for inner in ["Inner", "Companion", "1"] {
+                    if rng.chance(1, 2) {
+                        n += 1;
+                        t.push_str(&format!("{o}${inner} -> m{r}.c{oi}${}:\n", &inner[..1].to_lowercase()));
+                        if rng.chance(1, 4) {
+                            t.push_str("# {\"id\":\"sourceFile\",\"fileName\":\"Own.kt\"}\n");
+                        }
+                        t.push_str(&format!("    void {}.helper() -> b\n    int get() -> c\n", o));
+                    }
+                }
+            }
+        }
+        let _ = n;
+        t.push_str("com.example.Kept -> com.example.Kept:\n    void keep() -> keep\n");
+        return ("shared-original-names".into(), t.into_bytes());
+    }
     match case % 4 {
         0 | 1 => {
             let mut cfg = GenCfg::default();
@@ -87,6 +122,9 @@ pub fn run(ctx: &Ctx, rep: &mut Reporter) -> Json {
             let b = cur::write_cache(&text).expect("write to Vec");
             rep.count("evaluations", 2);
             rep.count("mappings", 1);
+            if kind == "shared-original-names" {
+                rep.count("mappings_with_class_records_sharing_an_original_name", 1);
+            }
             if kind == "many-classes" {
                 rep.count("mappings_with_more_than_4096_classes", 1);
             }
